@@ -188,6 +188,41 @@ func (sd *streamSide) start(c *harness.Ctx, conn net.Conn, prop string) {
 	})
 }
 
+// maybeHuge: in one run of ten one side's plan gets a single very large write
+// (around 64 KiB, 128 KiB, ... where write paths chunk, flush or grow their
+// buffers); the link then delivers in large pieces so that the run stays cheap.
+func maybeHuge(c *harness.Ctx, link *linkT, a, b *streamSide) {
+	t := c.T
+	if t.Draw("huge-write", 10) != 9 {
+		return
+	}
+	sz := []int{65535, 65536, 65537, 100000, 131072, 131073, 300000, 1 << 20}[t.Draw("huge-write.size", 8)]
+	if t.Draw("huge-write.off", 3) == 2 {
+		sz += t.Draw("huge-write.delta", 3000) - 1500
+	}
+	side := a
+	if t.Draw("huge-write.side", 2) == 1 {
+		side = b
+	}
+	side.plan = append(side.plan, writePlan{Size: sz})
+	for _, p := range []*simnet.Pipe{link.AB, link.BA} {
+		if p.Policy != simnet.ChunkBurst && p.Policy != simnet.ChunkAll && p.Policy != simnet.ChunkMSS {
+			p.Policy = simnet.ChunkAll
+		}
+		if p.MaxRead > 0 && p.MaxRead < 1448 {
+			p.MaxRead = 0
+		}
+	}
+	if a.rdBuf < 1427 {
+		a.rdBuf = 4096
+	}
+	if b.rdBuf < 1427 {
+		b.rdBuf = 4096
+	}
+	c.S.MaxSteps *= 4
+	c.Feature("one-very-large-write")
+}
+
 // drawHangUp: in a third of the runs one side hangs up when it is done while
 // the other may still have bytes coming.
 // afterFirstByte: hang up only once the peer has read something, i.e. is past
@@ -308,6 +343,7 @@ func runC01(c *harness.Ctx) {
 		pipe.Policy, pipe.Lazy, pipe.MaxRead = simnet.ChunkAll, true, 0
 		c.Feature("many-small-writes-coalesced")
 	}
+	maybeHuge(c, link, cs, ss)
 	cs.expectIn, ss.expectIn = planTotal(ss.plan), planTotal(cs.plan)
 	drawHangUp(c, cs, ss, false)
 	cs.rdDeadlineMs = []int{0, 0, 0, 1, 20, 300}[t.Draw("c.rddl", 6)]
